@@ -372,7 +372,6 @@ type world struct {
 	// a due timer of the re-arm loop was undelivered; lateCap = ticks taken
 	// while the due maximum-suspension timer (NewTimer) was undelivered.
 	lateU, lateCap int
-	lateAny        bool // some late tick was taken
 	// The most recent timer delivery: instant of the delivery, firing
 	// instant of the timer, reference u at the firing instant.
 	delivNow, delivStamp, delivU int
